@@ -54,6 +54,7 @@ def run(ctx):
                            % ("/".join(str(x[0]) for x in cfgs), "/".join(str(x[1]) for x in cfgs), "/".join(str(x[2]) for x in cfgs), mt, meb, mrb, "/".join(str(x[0]) for x in tcfgs), "/".join(str(x[1]) for x in tcfgs), pb),
                       {"sequential_executions": seq_exec, "sequential_transitions": seq_trans, "tcp_part_explored": not ctx.counters.get("namespace_unavailable"),
                        "tcp_settle_waits": int(ctx.counters.get("settle_waits", 0))})
+    cov["executions_with_colliding_client_addresses"] = int(ctx.counters.get("colliding_client_addresses", 0))
     cov["states"] += 0
     cov["transitions"] += seq_trans
     return ctx.finish("model_checking", cov, ["real kernel socket-pair, loopback TCP and epoll readiness in the sequential parts; the TCP part needs the privilege to create a network namespace and reports tcp_part_explored=false without it; host-name resolution (the Future-based resolver) is not exercised",
